@@ -39,7 +39,7 @@ package state
 //@ func (*State).ExecBlock
 //@   props C16 C06
 //@   requires s != nil && block != nil
-//@   invariant-assumed s.Validators != nil && block.LastCommit != nil
+//@   invariant-assumed s.Validators != nil && block.LastCommit != nil && block.Header != nil
 //@   nosafety
 //@   atcall Copy set gLastCopy = result
 //@   atcall IncrementAccum assert [one-round-per-block-on-a-private-copy] arg_valSet == gLastCopy && calls(Copy) == 2 && arg_times == 1 && calls(IncrementAccum) == 0
